@@ -97,7 +97,8 @@ func RunPlugin(bin string, req *pluginpb.CodeGeneratorRequest, extraEnv ...strin
 		return res
 	}
 	t0 := time.Now()
-	cmd := exec.Command(bin)
+	// resource limits: a runaway generator (unbounded recursion) must not take the sandbox down
+	cmd := exec.Command("/bin/bash", "-c", "ulimit -v 4000000; ulimit -t 30; exec \"$0\"", bin)
 	cmd.Stdin = bytes.NewReader(in)
 	cmd.Env = append(os.Environ(), extraEnv...)
 	var stdout, stderr bytes.Buffer
@@ -110,10 +111,10 @@ func RunPlugin(bin string, req *pluginpb.CodeGeneratorRequest, extraEnv ...strin
 	go func() { done <- cmd.Wait() }()
 	select {
 	case err = <-done:
-	case <-time.After(60 * time.Second):
+	case <-time.After(20 * time.Second):
 		_ = cmd.Process.Kill()
 		<-done
-		res.Crash = "timeout after 60s"
+		res.Crash = "timeout after 20s"
 		return res
 	}
 	res.WallMs = time.Since(t0).Milliseconds()
